@@ -91,11 +91,57 @@ def r1(ctx):
         n += loop_form_validate(ctx, R, b, eb)
         ctx.floor(R, n, 4)
         return
-    n += 1
-    ok = len(finds) == 1 and finds[0].name == 'find'
-    ctx.check(ok, R, b, 'lookup:first-match-in-stored-order', [c.name for c in finds],
-              'the applicable constraint is selected with %s (expected a single forward `find`: the smallest gap not '
-              'below the epoch gap)' % [c.name for c in finds])
+    fm_limit = False
+    if len(finds) == 1 and finds[0].name == 'find_map':
+        # `iter().find_map(|(gap, limit)| (gap >= epoch_gap).then_some(limit))`: the first applicable entry, projected to
+        # its limit inside the closure - judged there; any other find_map closure is reported below
+        recv = eb.arg(finds[0], 0)
+        okc = False
+        detail = ''
+        for cb in closure_args_of_call(F, b, finds[0]):
+            ctx.read(cb)
+            r = ExprBuilder(cb).place(0, ())
+            detail = repr(r)[:120]
+            cand = []
+            if r.kind == 'call' and r.name.rsplit('::', 1)[-1] == 'then_some' and len(r.args) == 2:
+                cand.append((as_cmp(r.args[0], True), r.args[1]))
+            elif r.kind == 'phi':
+                for a in r.args:
+                    if a.kind == 'agg' and a.name.endswith('Some') and a.args and a.site:
+                        for c_ in path_conditions(cb, a.site[0]):
+                            cm_ = c_.cmp()
+                            if cm_:
+                                cand.append((cm_, a.args[0]))
+            for cm, v in cand:
+                if not cm:
+                    continue
+
+                def is_gap(e):
+                    e = e.strip()
+                    if e.kind == 'place' and e.root[0] == 'upvar':
+                        pb, pe = upvar_expr(F, cb, e.root[1])
+                        return pe is not None and pe.strip().kind == 'place' and pe.strip().root == ('param', 2)
+                    return False
+                o = orient(cm, lambda e: not is_gap(e))
+                vs = v.strip()
+                okc = o is not None and is_gap(o[2]) and o[0] == 'Ge' and o[1].strip().kind == 'place' and \
+                    o[1].strip().fields[-1:] == (GAP,) and vs.kind == 'place' and vs.fields[-1:] == (LIM,) and \
+                    vs.root == o[1].strip().root
+        n += 3
+        fwd = recv.has_place(root=('param', 1), field='constraints') and not recv.has_call('rev')
+        ctx.check(okc, R, b, 'lookup:first-match-in-stored-order', 'find_map: ' + detail,
+                  'the applicable constraint is selected with a find_map whose closure is not `(gap >= epoch gap).then_some(limit)` '
+                  '(%s)' % detail)
+        ctx.check(fwd, R, b, 'lookup:over-self.constraints', repr(recv)[:80], 'the lookup does not iterate self.constraints forward')
+        ctx.check(okc, R, b, 'lookup:gap>=epoch_delta', detail, 'a constraint is considered applicable without `configured gap >= epoch gap`')
+        fm_limit = okc and fwd
+        ok = False
+    else:
+        n += 1
+        ok = len(finds) == 1 and finds[0].name == 'find'
+        ctx.check(ok, R, b, 'lookup:first-match-in-stored-order', [c.name for c in finds],
+                  'the applicable constraint is selected with %s (expected a single forward `find`: the smallest gap not '
+                  'below the epoch gap)' % [c.name for c in finds])
     if ok:
         recv = eb.arg(finds[0], 0)
         n += 1
@@ -140,6 +186,9 @@ def r1(ctx):
             o = orient(cm, lambda e: e.strip().kind == 'place' and e.strip().root == ('param', 3)) if cm else None
             some_le = o is not None and o[0] == 'Le' and (o[2].has_call('find')) and (
                 o[2].strip().proj[-1:] == (LIM,) or o[2].proj[-1:] == (LIM,) or repr(o[2]).endswith('.' + LIM))
+            if fm_limit and o is not None and o[0] == 'Le' and o[2].has_call('find_map'):
+                # the find_map closure already projected the selected entry to its limit
+                some_le = True
             ctx.check(some_le, R, b, 'admitted-iff-dist<=limit', '%s' % (('%r %s %r' % (o[1], o[0], o[2])) if o else cm),
                       'with an applicable constraint the pair is admitted when `%s` (expected `dist <= configured '
                       'limit` of the selected constraint)' % (('%r %s %r' % (cm[1], cm[0], cm[2])) if cm else payload))
